@@ -103,3 +103,7 @@ let fnv64 (s : string) =
   String.iter (fun c -> h := Int64.mul (Int64.logxor !h (Int64.of_int (Char.code c))) 0x100000001b3L) s;
   Printf.sprintf "%Lx" !h
 let align sz unit = if sz < unit then unit else (sz + unit - 1) / unit * unit
+
+(* a uint64 carried in an OCaml int: a negative value v stands for 2^64 + v *)
+let u64_str (v : int) = Printf.sprintf "%Lu" (Int64.of_int v)
+let n_of_u64 (v : int) = if v >= 0 then n_of_int v else n_of_decimal (u64_str v)
